@@ -78,7 +78,11 @@ def wrapper_records_nothing_itself(opt, g, pol, first):
     sc = RDScript(mk_system(0, g, 0), ts, time_step=0.25, sampling_policy=policy, sampling_interval=0.5)
     e.setup(sc)
     names = [c[0] for c in lib.log]
-    if names != ["engineexport_initialize_graph" if g else "engineexport_initialize_grid"]:
+    # exactly one initialize call of the right kind, and no call that records or advances (queries and a release of a previous
+    # simulation are the wrapper's business)
+    if [n_ for n_ in names if n_.startswith("engineexport_initialize")] != ["engineexport_initialize_graph" if g else "engineexport_initialize_grid"]:
+        return False
+    if any(n_ in ("engineexport_sample", "engineexport_iterate", "engineexport_iterate_n", "engineexport_run") for n_ in names):
         return False
     e.iterate()
     e.iterate_n(2)
